@@ -27,22 +27,22 @@ Proof. reflexivity. Qed.
 Lemma count_zero k id l : (forall r, In r l -> is_run k id r = false) -> count_run k id l = 0%nat.
 Proof. intros H. unfold count_run. rewrite (filter_none _ _ H). reflexivity. Qed.
 
-Definition startup_run (u : unit_) : list run :=
-  if u_startup u then [{| r_gen := u_gen u; r_kind := RStartup; r_unit := u_id u |}] else [].
-
 Lemma dec_start_log u L : snd (dec_start u L) = startup_run u.
 Proof. reflexivity. Qed.
 Lemma leg_prologue_log u L : snd (leg_prologue u L) = startup_run u.
 Proof. reflexivity. Qed.
 
 Lemma count_su_startup id u : count_run RStartup id (startup_run u) =
-  if N.eqb (u_id u) id && u_startup u then 1%nat else 0%nat.
+  if N.eqb (u_id u) id && (u_startup u && negb (u_crash u)) then 1%nat else 0%nat.
 Proof.
-  unfold startup_run, count_run. destruct (u_startup u); cbn; [|rewrite andb_false_r; reflexivity].
+  unfold startup_run, count_run. destruct (u_startup u && negb (u_crash u)); cbn; [|rewrite andb_false_r; reflexivity].
   unfold is_run. cbn. destruct (N.eqb (u_id u) id); reflexivity.
 Qed.
 Lemma count_sd_startup id u : count_run RShutdown id (startup_run u) = 0%nat.
-Proof. unfold startup_run, count_run. destruct (u_startup u); cbn; [|reflexivity]. unfold is_run. cbn. rewrite andb_false_r. reflexivity. Qed.
+Proof.
+  unfold startup_run, count_run. destruct (u_startup u && negb (u_crash u)); cbn; [|reflexivity]. unfold is_run. cbn.
+  rewrite andb_false_r. reflexivity.
+Qed.
 Lemma count_sd_shutdown id u : count_run RShutdown id (shutdown_run u) =
   if N.eqb (u_id u) id && u_shutdown u then 1%nat else 0%nat.
 Proof.
@@ -73,7 +73,7 @@ Proof.
     lia.
 Qed.
 Lemma startup_run_unit u r : In r (startup_run u) -> r_unit r = u_id u.
-Proof. unfold startup_run. destruct (u_startup u); [intros [<-|[]]; reflexivity|intros []]. Qed.
+Proof. unfold startup_run. destruct (u_startup u && negb (u_crash u)); [intros [<-|[]]; reflexivity|intros []]. Qed.
 Lemma shutdown_run_unit u r : In r (shutdown_run u) -> r_unit r = u_id u.
 Proof. unfold shutdown_run. destruct (u_shutdown u); [intros [<-|[]]; reflexivity|intros []]. Qed.
 
@@ -83,7 +83,7 @@ Definition once_u (W : world) (f : func) (u : unit_) : Prop :=
   let cd := count_run RShutdown (u_id u) (w_log W) in
   (cs = 0%nat \/ (cs = 1%nat /\ ~ In (u_id u) (w_pending W) /\ (f_new f = false -> ~ In (f_gen f) (w_delayed W)) /\
                   (f_new f = true -> In (u_id u) (w_running W) \/ ~ In (f_gen f) (w_active W)))) /\
-  (In (u_id u) (w_running W) -> u_startup u = true -> cs = 1%nat) /\
+  (In (u_id u) (w_running W) -> u_startup u = true -> u_crash u = false -> cs = 1%nat) /\
   (In (f_gen f) (w_active W) -> cd = 0%nat) /\ (cd <= 1)%nat /\
   (f_new f = false -> ~ In (f_gen f) (w_active W) -> u_shutdown u = true -> cd = 1%nat).
 
@@ -110,7 +110,7 @@ Proof.
   - destruct A as [A|[A1 [A2 [A3 A4]]]]; [left; exact A|right]. split; [exact A1|split; [intros X; exact (A2 (HP X))|split]].
     + intros NF X. exact (A3 NF (HD X)).
     + intros NF. destruct (A4 NF) as [X|X]; [left; apply HR; exact X|right; intros K; apply X; apply HA; exact K].
-  - intros X Y. apply B; [apply HR; exact X|exact Y].
+  - intros X Y Y2. apply B; [apply HR; exact X|exact Y|exact Y2].
   - intros X. apply C. apply HA. exact X.
   - exact D.
   - intros X Y Z. apply E; [exact X| |exact Z]. intros K. apply Y. apply HA. exact K.
@@ -163,7 +163,9 @@ Proof.
   - destruct (IH (stop_if_running cfg W a)) as [rs [E [C U]]].
     assert (X : exists r0, w_log (stop_if_running cfg W a) = w_log W ++ r0 /\ (r0 = shutdown_run a \/ r0 = [])).
     { unfold stop_if_running. destruct (memn (u_id a) (w_running W)).
-      - exists (shutdown_run a). split; [reflexivity|left; reflexivity].
+      - unfold dec_unit_stop, dec_stop. wsimpl. destruct (u_crash a).
+        + exists []. split; [reflexivity|right; reflexivity].
+        + exists (shutdown_run a). split; [reflexivity|left; reflexivity].
       - exists []. rewrite app_nil_r. split; [reflexivity|right; reflexivity]. }
     destruct X as [r0 [E0 H0]]. exists (r0 ++ rs). rewrite E, E0, app_assoc. split; [reflexivity|]. split.
     + intros k id. cbn [flat_map]. rewrite !count_app. specialize (C k id). destruct H0 as [-> | ->]; cbn [count_run filter length]; lia.
@@ -225,7 +227,7 @@ Proof.
         -- intros K. apply A2. apply (P1 _ K).
         -- intros NF K. apply (A3 NF). rewrite <- D1. apply ED'. exact K.
         -- intros _. right. exact NA.
-      * intros K Y. apply B; [apply (R1 _ K)|exact Y].
+      * intros K Y Y2. apply B; [apply (R1 _ K)|exact Y|exact Y2].
       * intros K. contradiction.
       * destruct (u_shutdown u'); cbn in *; lia.
       * intros NF _ Y. rewrite (EX NF), (count_flat_own RShutdown shutdown_run (f_units f) u' shutdown_run_unit (ON f Hf) Hu'),
@@ -330,12 +332,12 @@ Proof.
       destruct X as [[A0|[_ [_ [_ A4]]]] [B [Cc [D E']]]].
       2:{ destruct (A4 NF) as [K|K]; contradiction. }
       rewrite A0. cbn [Nat.add]. repeat split; try assumption.
-      * destruct (u_startup u); [right|left; reflexivity]. split; [reflexivity|split; [|split]].
+      * destruct (u_startup u && negb (u_crash u)); [right|left; reflexivity]. split; [reflexivity|split; [|split]].
         -- intros K. destruct (so_pend W S _ K) as [f2 [u2 [O2 [E2 [NF2 _]]]]].
            destruct (io_uniq W I f2 u2 f u O2 O E2) as [-> _]. congruence.
         -- intros K. congruence.
         -- intros _. left. apply In_addn. right; reflexivity.
-      * intros _ Y. rewrite Y. reflexivity.
+      * intros _ Y Y2. rewrite Y, Y2. reflexivity.
     + apply (once_u_transfer W); wsimpl; try exact X.
       * rewrite dec_start_log, count_app, count_su_startup. apply N.eqb_neq in NU. rewrite N.eqb_sym, NU. cbn. lia.
       * rewrite dec_start_log, count_app, count_sd_startup. lia.
@@ -494,10 +496,10 @@ Proof.
     + destruct (io_uniq W I f' u' f u O' O EU) as [-> ->]. unfold once_u in *. wsimpl. rewrite leg_prologue_log.
       rewrite !count_app, count_su_startup, count_sd_startup, N.eqb_refl. cbn [andb]. rewrite !Nat.add_0_r.
       destruct Y as [[A0|[_ [A3 _]]] [B [Cc [D E']]]]; [|contradiction]. rewrite A0. cbn [Nat.add]. repeat split; try assumption.
-      * destruct (u_startup u); [right|left; reflexivity]. split; [reflexivity|split; [apply not_in_deln_self|split]].
+      * destruct (u_startup u && negb (u_crash u)); [right|left; reflexivity]. split; [reflexivity|split; [apply not_in_deln_self|split]].
         -- intros _. exact ND.
         -- intros K. congruence.
-      * intros _ Y. rewrite Y. reflexivity.
+      * intros _ Y Y2. rewrite Y, Y2. reflexivity.
     + apply (once_u_transfer W); wsimpl; try exact Y.
       * rewrite leg_prologue_log, count_app, count_su_startup. apply N.eqb_neq in NU. rewrite N.eqb_sym, NU. cbn. lia.
       * rewrite leg_prologue_log, count_app, count_sd_startup. lia.
@@ -509,10 +511,10 @@ Proof.
 Qed.
 
 (* ---- definition ------------------------------------------------------------------------------------- *)
-Lemma number_units_nodup gen : forall ps id, NoDup (map u_id (number_units gen id ps)).
+Lemma number_units_nodup cr gen : forall ps id, NoDup (map u_id (number_units cr gen id ps)).
 Proof.
   induction ps as [|[[st ev] tm] r IH]; intros id; cbn [number_units map]; constructor; [|apply IH].
-  intros K. apply in_map_iff in K. destruct K as [u [E Hu]]. destruct (number_units_in _ _ _ _ Hu) as [_ [B _]].
+  intros K. apply in_map_iff in K. destruct K as [u [E Hu]]. destruct (number_units_in _ _ _ _ _ Hu) as [_ [B _]].
   cbn [mk_unit u_id] in E. lia.
 Qed.
 
@@ -521,7 +523,7 @@ Proof.
   intros AO HI HO. pose proof HI as [I [S L]]. pose proof HO as [OL OU ON].
   unfold define.
   set (gen := w_next W).
-  set (units := number_units gen (gen + 1) (if newsys then new_protos s else legacy_protos s)).
+  set (units := number_units (s_crash s) gen (gen + 1) (if newsys then new_protos s else legacy_protos s)).
   set (f := {| f_gen := gen; f_ctx := c; f_new := newsys; f_units := units; f_svc := s_svc s; f_pos := s_pos s |}).
   set (Wf := {| w_led := w_led W; w_funcs := w_funcs W ++ [f]; w_active := w_active W; w_delayed := w_delayed W;
                 w_pending := w_pending W; w_zombie := w_zombie W; w_running := w_running W; w_starting := w_starting W;
@@ -547,7 +549,7 @@ Proof.
         apply (once_u_transfer W); wsimpl; rewrite ?X1, ?X4, ?X5, ?X6, ?X7; try exact Y; try reflexivity; auto.
         * intros K. apply in_app_or in K. destruct K as [K|[K|[]]]; [exact K|lia].
         * split; [intros K; apply in_app_or in K; destruct K as [K|[K|[]]]; [exact K|lia]|intros K; apply in_or_app; left; exact K].
-      + cbn [f f_units] in Hu'. destruct (number_units_in _ _ _ _ Hu') as [_ [B _]].
+      + cbn [f f_units] in Hu'. destruct (number_units_in _ _ _ _ _ Hu') as [_ [B _]].
         assert (Z : forall k, count_run k (u_id u') (w_log W) = 0%nat).
         { intros k. apply count_zero. intros r Hr. unfold is_run. pose proof (OL r Hr). fold gen in H.
           destruct (N.eqb_spec (r_unit r) (u_id u')) as [E|NE]; [lia|reflexivity]. }
@@ -563,6 +565,12 @@ Proof.
 Qed.
 
 (* ---- occurrences ------------------------------------------------------------------------------------- *)
+Lemma crash_all_once cfg ids W : all_off cfg -> Inv W -> Once W -> Once (crash_all cfg ids W).
+Proof.
+  intros AO HI HO. destruct (crash_all_inv cfg ids AO W HI) as [_ [F [Nx [A [D [P [_ [R [_ [LG _]]]]]]]]]].
+  apply (same_once W); try assumption. rewrite Nx. reflexivity.
+Qed.
+
 Lemma occ_once cfg W o : all_off cfg -> Inv W -> Once W -> is_occ o = true -> Once (step cfg W o).
 Proof.
   intros AO HI HO OC. pose proof HI as [I [S L]]. pose proof HO as [OL OU ON].
@@ -580,7 +588,7 @@ Proof.
       + rewrite count_app, (Z RStartup (or_introl eq_refl)). lia.
       + rewrite count_app, (Z RShutdown (or_intror eq_refl)). lia.
     - exact ON. }
-  destruct o; cbn [is_occ] in OC; try discriminate; cbn [step]; apply GEN.
+  destruct o; cbn [is_occ] in OC; try discriminate; cbn [step]; try (apply crash_all_once; [exact AO|apply Inv_log; exact HI|]); apply GEN.
   - intros r Hr. unfold occ_state in Hr. apply in_map_iff in Hr. destruct Hr as [[e' q] [<- Hp]]. apply filter_In in Hp.
     destruct Hp as [Hp _]. cbn [r_unit r_kind snd]. split; [|left; reflexivity]. apply RUN. exact (proj1 (ok_state W L e' q Hp)).
   - intros r Hr. unfold occ_event in Hr. apply in_app_or in Hr. destruct Hr as [Hr|Hr].
@@ -588,14 +596,14 @@ Proof.
       apply filter_In in Hp. destruct Hp as [Hp _]. cbn [r_unit r_kind snd]. split; [|right; left; reflexivity].
       apply RUN. exact (proj1 (ok_event W L e' q Hp)).
     + apply in_map_iff in Hr. destruct Hr as [[e' q] [<- Hp]]. apply filter_In in Hp. destruct Hp as [Hp C]. cbn [r_unit r_kind snd].
-      split; [|right; left; reflexivity]. apply andb_true_iff in C. destruct C as [_ C]. apply negb_true_iff, N.eqb_neq in C. cbn in C.
+      split; [|right; left; reflexivity]. apply andb_true_iff in C. destruct C as [C _]. apply andb_true_iff in C. destruct C as [_ C]. apply negb_true_iff, N.eqb_neq in C. cbn in C.
       destruct (ok_bus W L e' q Hp) as [[Z _]|[R _]]; [contradiction|]. apply RUN. exact R.
   - intros r Hr. unfold occ_tick in Hr. apply in_flat_map in Hr. destruct Hr as [t [Ht Hr]].
     destruct (find_unit W t) as [u|] eqn:FU; [|destruct Hr].
-    destruct (u_periodic u && negb (memn t (w_pending W)) && negb (memn t (w_zombie W))); [|destruct Hr].
+    destruct (u_periodic u && negb (memn t (w_pending W)) && negb (memn t (w_zombie W)) && negb (u_crash u)); [|destruct Hr].
     destruct Hr as [<-|[]]. cbn [r_unit r_kind]. split; [|right; right; left; reflexivity].
     destruct (find_unit_some W t u FU) as [[f O] E]. rewrite <- E. apply (io_unit W I f u O).
-  - intros r Hr. unfold occ_call, handler in Hr. destruct AO as [_ [_ [_ D21]]]. rewrite D21 in Hr.
+  - intros r Hr. unfold occ_call, handler in Hr. destruct AO as [_ [_ [_ [D21 _]]]]. rewrite D21 in Hr.
     destruct (rev (filter (has_name W n) (l_svc (w_led W)))) as [|g r0] eqn:RV; [destruct Hr|]. destruct Hr as [<-|[]].
     cbn [r_unit r_kind]. split; [|right; right; right; reflexivity].
     assert (Hg : In g (l_svc (w_led W))).
@@ -698,6 +706,8 @@ Proof.
     + apply resume_all_inv2. exact HI2.
     + split; [apply do_reap_inv; exact HI|apply (same_once _ _ HO); reflexivity].
     + apply settle_inv2. exact HI2.
+    + split; [apply crash_all_inv; assumption|apply crash_all_once; assumption].
+    + pose proof AO as [_ [_ [_ [_ D92]]]]. rewrite D92. apply ctx_start_inv2; assumption.
 Qed.
 
 Lemma run_ops_inv2 cfg ops : all_off cfg -> forall W, Inv2 W -> Inv2 (run_ops cfg ops W).
@@ -710,7 +720,7 @@ Theorem startup_shutdown_once cfg : all_off cfg -> forall ops : list op,
   let W := run_ops cfg ops world0 in
   forall f u, In f (w_funcs W) -> In u (f_units f) ->
     (count_run RStartup (u_id u) (w_log W) <= 1)%nat /\ (count_run RShutdown (u_id u) (w_log W) <= 1)%nat /\
-    (In (u_id u) (w_running W) -> u_startup u = true -> count_run RStartup (u_id u) (w_log W) = 1%nat) /\
+    (In (u_id u) (w_running W) -> u_startup u = true -> u_crash u = false -> count_run RStartup (u_id u) (w_log W) = 1%nat) /\
     (In (f_gen f) (w_active W) -> count_run RShutdown (u_id u) (w_log W) = 0%nat) /\
     (f_new f = false -> ~ In (f_gen f) (w_active W) -> u_shutdown u = true -> count_run RShutdown (u_id u) (w_log W) = 1%nat).
 Proof.
